@@ -750,6 +750,8 @@ fn generate(rng: &mut Rng, tier: &str, w: &mut CaseWriter) {
     generate_part5(rng, tier, w);
     // deepening round 8 (appended last again)
     generate_part6(rng, tier, w);
+    // strengthening round 10 (appended last again): the CIGAR-overflow branch
+    generate_part7(rng, tier, w);
 }
 
 fn main() {
